@@ -11,18 +11,18 @@ from . import core
 QUICK_FILES = ['test/testfiles_for_unittests/sample_exe64.elf', 'test/testfiles_for_unittests/dwarfv5_basic.elf',
                'test/testfiles_for_unittests/lib_versioned64.so.1.elf', 'test/testfiles_for_unittests/simple_gcc.elf.arm',
                'test/testfiles_for_unittests/aarch64_be_gnu_hash.so.elf', 'test/testfiles_for_unittests/dwarf_llpair.elf',
-               'test/testfiles_for_unittests/compressed_64.o',
+               'test/testfiles_for_unittests/compressed_64.o', 'test/testfiles_for_readelf/reloc_arm_gcc.o.elf',
                'test/testfiles_for_readelf/dwarf_test_versions_mix.elf', 'test/testfiles_for_readelf/dwarf_v5ops.so.elf']
 # large files that the quick tier uses only for the list generators (v5 location/range lists need a pure DWARF5 producer)
 LISTS_ONLY_QUICK = {'test/testfiles_for_readelf/dwarf_v5ops.so.elf'}
-MORE_FILES = ['test/testfiles_for_unittests/simple_gcc.elf.riscv', 'test/testfiles_for_unittests/exe_solaris64_cc.elf',
+MORE_FILES = ['test/testfiles_for_readelf/penalty_32_gcc.o.elf', 'test/testfiles_for_unittests/simple_gcc.elf.riscv', 'test/testfiles_for_unittests/exe_solaris64_cc.elf',
               'test/testfiles_for_unittests/dwarf_debug_types.elf', 'test/testfiles_for_unittests/lambda.elf',
               'test/testfiles_for_unittests/arm_exidx_test.so', 'test/testfiles_for_unittests/simple_mipsel.elf',
               'test/testfiles_for_unittests/aranges_partial.elf',
               'test/testfiles_for_unittests/lib_relro.so.elf', 'test/testfiles_for_unittests/trailing_null_dies.elf']
 
 QUICK_QUERIES = ('section_data', 'string_at', 'section_by_name', 'symbol_by_name', 'dyn_tag', 'die_at', 'parent', 'children', 'line_program', 'eh_cfi', 'decoded',
-                 'loc_of_die', 'ranges_of_die', 'versions', 'hash_lookup', 'attributes', 'ehabi', 'aranges')
+                 'loc_of_die', 'ranges_of_die', 'versions', 'hash_lookup', 'attributes', 'ehabi', 'aranges', 'dwarf_again')
 CAP = 40          # items compared per generator
 
 
@@ -338,6 +338,17 @@ def _answer(w, name, a, b):
             d = e.get_decoded()
             return (len(ents), tuple(_c(r) for r in d.table), tuple(d.reg_order))
         return (len(ents), _cfi_entry(e))
+    if name == 'dwarf_again':
+        import hashlib
+        d2 = ef.get_dwarf_info()                 # a second view of the same file object
+        out = []
+        for k, v in sorted(vars(d2).items()):
+            if k.endswith('_sec') and v is not None and hasattr(v, 'stream'):
+                out.append((k, v.size, hashlib.sha1(v.stream.getvalue()).hexdigest()[:16]))
+        for k, v in sorted(vars(di).items()):    # ... and the first view is not disturbed by it
+            if k.endswith('_sec') and v is not None and hasattr(v, 'stream'):
+                out.append(('first:' + k, v.size, hashlib.sha1(v.stream.getvalue()).hexdigest()[:16]))
+        return tuple(out)
     if name == 'aranges':
         ar = di.get_aranges()
         if ar is None or not ar.entries:
